@@ -26,7 +26,7 @@ for p in props:
         na.append({"property_id": pid, "reason": M.NOT_CLAIMED.get(pid, "check not built yet in this round (see DESIGN.md §11)")})
 man = {
     "version": 1,
-    "setup_cmd": "/venv/bin/python harness/extract_consts.py && cd lean && lake build Robotools driver",
+    "setup_cmd": "/venv/bin/python harness/extract_consts.py && /venv/bin/python harness/translate_fns.py >/dev/null && cd lean && lake build Robotools driver",
     "hooks": {"guard": "ROBOTOOLS_VERIF", "enable": "no hooks are needed: every observation is public API (DESIGN.md §4.1); checks run /venv/bin/python with PYTHONPATH=/repo",
               "baseline_off_cmd": "cd /repo && /venv/bin/python -m pytest -ra -q -p no:cacheprovider --timeout=900 --continue-on-collection-errors",
               "source_commits": [], "add_only": True},
